@@ -262,9 +262,13 @@ func (dr *DatabaseRecovery) loadEmbeddedDatabase() (*database.Database, error) {
 		}
 	}
 
-	return &database.Database{
+	db := &database.Database{
 		Commands: essentialCommands,
-	}, nil
+	}
+	// Build the index now: a database handed out without one builds it lazily inside
+	// the first search, which races when several goroutines search it at once.
+	db.BuildUniversalIndex()
+	return db, nil
 }
 
 // loadBackupDatabase attempts to load from a backup file
@@ -312,9 +316,11 @@ func (dr *DatabaseRecovery) createMinimalDatabase() (*database.Database, error) 
 		}
 	}
 
-	return &database.Database{
+	db := &database.Database{
 		Commands: minimalCommands,
-	}, nil
+	}
+	db.BuildUniversalIndex()
+	return db, nil
 }
 
 // SearchRecovery handles search operation failures with graceful degradation
